@@ -220,9 +220,15 @@ def nextState (hasStream : Bool) (s : VState) (h : Header) : VState :=
     let s := { s with afterPseudo := true }
     if h.1 = bContentLength then
       match parseContentLength h.2 with
-      | .ok n => if hasStream then { s with ecl := some n } else s
+      | .ok n =>
+        let s := { s with dcl := some n }
+        if hasStream then { s with ecl := some n } else s
       | .error _ => s
     else s
+
+/-- the duplicate check of iteration `h`: a content-length that parses equals the one declared before -/
+def DclOk (dcl : Option Nat) (h : Header) : Prop :=
+  h.1 = bContentLength → ∀ n, parseContentLength h.2 = .ok n → clConflict dcl n = false
 
 
 theorem vstep_err (allowed : List Bytes) (hs : Bool) (s : VState) (h : Header) (e : Err) :
@@ -253,8 +259,8 @@ theorem vstep_err (allowed : List Bytes) (hs : Bool) (s : VState) (h : Header) (
 
 theorem vstep_ok_iff (allowed : List Bytes) (hs : Bool) (s s' : VState) (h : Header) :
     vstep allowed hs s h = .ok s' ↔
-      StepOk allowed s.afterPseudo s.seen h ∧ s' = nextState hs s h := by
-  unfold vstep StepOk nextState
+      StepOk allowed s.afterPseudo s.seen h ∧ DclOk s.dcl h ∧ s' = nextState hs s h := by
+  unfold vstep StepOk nextState DclOk
   cases hn : validateHeaderName h.1 with
   | error e' => simp [bind, Except.bind]
   | ok u =>
@@ -263,7 +269,9 @@ theorem vstep_ok_iff (allowed : List Bytes) (hs : Bool) (s s' : VState) (h : Hea
     | ok u' =>
       simp only [bind, Except.bind, true_and]
       by_cases hp : isPseudo h.1 = true
-      · simp only [hp, if_true]
+      · have hncl : h.1 ≠ bContentLength := by
+          intro hc; rw [hc] at hp; revert hp; decide
+        simp only [hp, if_true, hncl, false_implies, true_and]
         by_cases ha : s.afterPseudo = true
         · simp [ha]
         · by_cases hal : h.1 ∈ allowed
@@ -290,7 +298,15 @@ theorem vstep_ok_iff (allowed : List Bytes) (hs : Bool) (s s' : VState) (h : Hea
           simp only [hcl, if_true, clOk]
           cases hpc : parseContentLength h.2 with
           | error e' => simp
-          | ok n => simp [hne, eq_comm]
+          | ok n =>
+            cases hcf : clConflict s.dcl n with
+            | true => simp [hne, hcf]
+            | false =>
+              simp only [hcf, Bool.false_eq_true, if_false, hne, false_implies, and_true, true_and,
+                Except.ok.injEq, forall_const]
+              constructor
+              · intro hh; exact ⟨fun m hm => hm ▸ hcf, hh.symm⟩
+              · intro hh; rw [hh.2]
         · simp only [hcl, if_false]
           by_cases hte : h.1 = bTransferEncoding ∧ h.2 ≠ bTrailers
           · simp [hte]
@@ -298,8 +314,8 @@ theorem vstep_ok_iff (allowed : List Bytes) (hs : Bool) (s s' : VState) (h : Hea
             have : h.1 = bTransferEncoding → h.2 = bTrailers := fun hx =>
               Classical.byContradiction fun hne => hte ⟨hx, hne⟩
             constructor
-            · intro hh; cases hh; exact ⟨⟨fun hx => hx.elim, this⟩, rfl⟩
-            · intro hh; rw [hh.2]
+            · intro hh; cases hh; exact ⟨⟨fun hx => hx.elim, this⟩, fun hx => hx.elim, rfl⟩
+            · intro hh; rw [hh.2.2]
 
 /-! ### the whole loop -/
 
@@ -307,6 +323,19 @@ def LoopOk (allowed : List Bytes) : Bool → List Bytes → Headers → Prop
   | _, _, [] => True
   | after, seen, h :: t => StepOk allowed after seen h ∧
       LoopOk allowed (after || !isPseudo h.1) (if isPseudo h.1 then h.1 :: seen else seen) t
+
+/-- `declared_content_length` after iteration `h` -/
+def nextDcl (dcl : Option Nat) (h : Header) : Option Nat :=
+  if h.1 = bContentLength then
+    match parseContentLength h.2 with
+    | .ok n => some n
+    | .error _ => dcl
+  else dcl
+
+/-- the duplicate check passes in every iteration -/
+def DclLoop : Option Nat → Headers → Prop
+  | _, [] => True
+  | dcl, h :: t => DclOk dcl h ∧ DclLoop (nextDcl dcl h) t
 
 def outState (hs : Bool) : VState → Headers → VState
   | s, [] => s
@@ -346,24 +375,41 @@ theorem vloop_err (allowed : List Bytes) (hs : Bool) (s : VState) (l : Headers) 
     | error e' => intro hh; cases hh; exact vstep_err _ _ _ _ _ hv
     | ok s1 => exact ih s1
 
+theorem nextState_dcl (hs : Bool) (s : VState) (h : Header) :
+    (nextState hs s h).dcl = nextDcl s.dcl h := by
+  unfold nextState nextDcl
+  by_cases hp : isPseudo h.1 = true
+  · have h1 : h.1 ≠ bContentLength := by
+      intro hc; rw [hc] at hp; revert hp; decide
+    simp only [hp, if_true, h1, if_false]
+    repeat' split
+    all_goals rfl
+  · have hp' : isPseudo h.1 = false := by simpa using hp
+    simp only [hp', Bool.false_eq_true, if_false]
+    by_cases hc : h.1 = bContentLength
+    · cases hs <;> cases parseContentLength h.2 <;> simp [hc]
+    · simp [hc]
+
 theorem vloop_ok_iff (allowed : List Bytes) (hs : Bool) (s s' : VState) (l : Headers) :
     vloop allowed hs s l = .ok s' ↔
-      LoopOk allowed s.afterPseudo s.seen l ∧ s' = outState hs s l := by
+      LoopOk allowed s.afterPseudo s.seen l ∧ DclLoop s.dcl l ∧ s' = outState hs s l := by
   induction l generalizing s with
-  | nil => simp [vloop, LoopOk, outState, eq_comm]
+  | nil => simp [vloop, LoopOk, DclLoop, outState, eq_comm]
   | cons h t ih =>
-    simp only [vloop, bind, Except.bind, LoopOk, outState]
+    simp only [vloop, bind, Except.bind, LoopOk, DclLoop, outState]
     cases hv : vstep allowed hs s h with
     | error e' =>
-      have : ¬ StepOk allowed s.afterPseudo s.seen h := by
+      have : ¬ (StepOk allowed s.afterPseudo s.seen h ∧ DclOk s.dcl h) := by
         intro hk
-        have := (vstep_ok_iff allowed hs s (nextState hs s h) h).2 ⟨hk, rfl⟩
+        have := (vstep_ok_iff allowed hs s (nextState hs s h) h).2 ⟨hk.1, hk.2, rfl⟩
         rw [hv] at this; cases this
-      simp [this]
+      constructor
+      · intro hh; cases hh
+      · rintro ⟨⟨h1, _⟩, ⟨h2, _⟩, _⟩; exact absurd ⟨h1, h2⟩ this
     | ok s1 =>
       have h1 := (vstep_ok_iff allowed hs s s1 h).1 hv
-      rw [ih s1, h1.2, nextState_after, nextState_seen]
-      simp [h1.1]
+      rw [ih s1, h1.2.2, nextState_after, nextState_seen, nextState_dcl]
+      simp only [h1.1, h1.2.1, true_and]
 
 /-! ### the loop, declaratively -/
 
@@ -662,12 +708,17 @@ theorem vfinal_ok_iff (req : List Bytes) (s : VState) (r : Option Nat) :
     rw [key]
     exact ⟨fun h => ⟨hall, h⟩, fun h => h.2⟩
 
+/-- all content-length declarations agree -/
+def AllSame (l : List Nat) : Prop := ∀ a ∈ l, ∀ b ∈ l, a = b
+
 /-- what `validate_headers` checks beyond the rules of the property -/
 def ExtraChecks (kind : Kind) (hs : Headers) : Prop :=
   -- a colon only as the first byte of a name
   (∀ h ∈ hs, (0x3A : UInt8) ∉ h.1.tail)
   -- `int(value)` succeeds on every content-length and is not negative
   ∧ (∀ h ∈ hs, h.1 = bContentLength → ∃ n : Int, pyIntOfBytes h.2 = some n ∧ 0 ≤ n)
+  -- all content-length headers of the block declare the same integer
+  ∧ AllSame (allDeclaredCL hs)
   -- transfer-encoding, if present, is `trailers`
   ∧ (∀ h ∈ hs, h.1 = bTransferEncoding → h.2 = bTrailers)
   -- the code's required sets: requests also need `:authority`, push promises all four
@@ -684,22 +735,74 @@ theorem validateHeaders_err (a req : List Bytes) (hs : Bool) (ecl0 : Option Nat)
   | error e' => intro hh; cases hh; exact vloop_err _ _ _ _ _ hv
   | ok s' => exact vfinal_err _ _ _
 
+theorem clConflict_false_iff (dcl : Option Nat) (n : Nat) :
+    clConflict dcl n = false ↔ ∀ d, dcl = some d → d = n := by
+  cases dcl with
+  | none => simp [clConflict]
+  | some d => simp [clConflict]
+
+theorem allSame_cons_cons (d n : Nat) (A : List Nat) :
+    AllSame (d :: n :: A) ↔ d = n ∧ AllSame (n :: A) := by
+  unfold AllSame
+  constructor
+  · intro h
+    refine ⟨h d (by simp) n (by simp), fun a ha b hb => h a (List.mem_cons_of_mem _ ha) b (List.mem_cons_of_mem _ hb)⟩
+  · rintro ⟨rfl, h⟩ a ha b hb
+    have ha' : a ∈ d :: A := by
+      rcases List.mem_cons.1 ha with rfl | ha
+      · exact List.mem_cons_self
+      · exact ha
+    have hb' : b ∈ d :: A := by
+      rcases List.mem_cons.1 hb with rfl | hb
+      · exact List.mem_cons_self
+      · exact hb
+    exact h a ha' b hb'
+
+theorem dclLoop_iff (dcl : Option Nat) (l : Headers) :
+    DclLoop dcl l ↔ AllSame (dcl.toList ++ allDeclaredCL l) := by
+  induction l generalizing dcl with
+  | nil =>
+    simp only [DclLoop, allDeclaredCL, List.append_nil, true_iff]
+    cases dcl with
+    | none => intro a ha; cases ha
+    | some d => intro a ha b hb; simp at ha hb; rw [ha, hb]
+  | cons h t ih =>
+    simp only [DclLoop, allDeclaredCL, DclOk, nextDcl, ih]
+    by_cases hc : h.1 = bContentLength
+    · simp only [hc, if_true, true_implies]
+      cases hp : parseContentLength h.2 with
+      | error e => simp
+      | ok n =>
+        simp only [Except.ok.injEq, forall_eq', clConflict_false_iff, Option.toList_some,
+          List.singleton_append]
+        cases dcl with
+        | none => simp
+        | some d =>
+          simp only [Option.some.injEq, forall_eq', Option.toList_some, List.singleton_append]
+          exact (allSame_cons_cons d n _).symm
+    · simp [hc]
+
 theorem validateHeaders_ok_iff (a req : List Bytes) (hs : Bool) (ecl0 : Option Nat) (l : Headers)
     (r : Option Nat) :
     validateHeaders a req hs ecl0 l = .ok r ↔
-      LoopOk a false [] l ∧ vfinal req (outState hs { ecl := ecl0 } l) = .ok r := by
+      LoopOk a false [] l ∧ AllSame (allDeclaredCL l) ∧
+      vfinal req (outState hs { ecl := ecl0 } l) = .ok r := by
   unfold validateHeaders
   simp only [bind, Except.bind]
+  have hd : DclLoop ({ ecl := ecl0 } : VState).dcl l ↔ AllSame (allDeclaredCL l) := by
+    rw [dclLoop_iff]; rfl
   cases hv : vloop a hs { ecl := ecl0 } l with
   | error e' =>
-    have : ¬ LoopOk a false [] l := by
+    have : ¬ (LoopOk a false [] l ∧ AllSame (allDeclaredCL l)) := by
       intro hk
-      have := (vloop_ok_iff a hs { ecl := ecl0 } _ l).2 ⟨hk, rfl⟩
+      have := (vloop_ok_iff a hs { ecl := ecl0 } _ l).2 ⟨hk.1, hd.2 hk.2, rfl⟩
       rw [hv] at this; cases this
-    simp [this]
+    constructor
+    · intro hh; cases hh
+    · rintro ⟨h1, h2, _⟩; exact absurd ⟨h1, h2⟩ this
   | ok s' =>
     have := (vloop_ok_iff a hs { ecl := ecl0 } s' l).1 hv
-    simp only [this.2, this.1, true_and]
+    simp only [this.2.2, this.1, hd.1 this.2.1, true_and]
 
 theorem required_pseudo (kind : Kind) : ∀ n ∈ requiredPseudo kind, isPseudo n = true := by
   cases kind <;> decide
@@ -742,7 +845,7 @@ theorem validateOn_ok_iff (kind : Kind) (ecl0 : Option Nat) (hs : Headers) (r : 
   unfold validateOn
   rw [validateHeaders_ok_iff, vfinal_ok_iff, outState_ecl]
   constructor
-  · rintro ⟨hloop, hreq, hsch, hr⟩
+  · rintro ⟨hloop, hsame, hreq, hsch, hr⟩
     have hl := (loopOk_iff _ _ _ _).1 hloop
     obtain ⟨hA, _, hC, hD, hE⟩ := hl
     have hreq' : ∀ n ∈ requiredPseudo kind, n ∈ names hs := by
@@ -756,7 +859,7 @@ theorem validateOn_ok_iff (kind : Kind) (ecl0 : Option Nat) (hs : Headers) (r : 
       (nextState_authority_set _) (nextState_authority_keep _) hs { ecl := ecl0 } false [] hloop (by simp)
     have fP := outState_field (allowedPseudo kind) (hasStream kind) VState.path bPath (by decide)
       (nextState_path_set _) (nextState_path_keep _) hs { ecl := ecl0 } false [] hloop (by simp)
-    refine ⟨⟨?_, ?_, ?_, ?_, ?_, ?_⟩, ⟨?_, ?_, ?_, hreq', ?_⟩, hr⟩
+    refine ⟨⟨?_, ?_, ?_, ?_, ?_, ?_⟩, ⟨?_, ?_, hsame, ?_, hreq', ?_⟩, hr⟩
     · exact fun h hh => ((localOk_iff h).1 (hA h hh)).1
     · exact fun h hh => ((localOk_iff h).1 (hA h hh)).2.1
     · exact hC.imp (fun {a b} hab hb => (isPseudo_iff _).1 (hab ((isPseudo_iff _).2 hb)))
@@ -781,7 +884,7 @@ theorem validateOn_ok_iff (kind : Kind) (ecl0 : Option Nat) (hs : Headers) (r : 
       · rcases (fP p).1 hp with h1 | h1
         · cases h1
         · exact h1
-  · rintro ⟨⟨w1, w2, w3, w4, w5, w6⟩, ⟨e1, e2, e3, e4, e5⟩, hr⟩
+  · rintro ⟨⟨w1, w2, w3, w4, w5, w6⟩, ⟨e1, e2, esame, e3, e4, e5⟩, hr⟩
     have hloop : LoopOk (allowedPseudo kind) false [] hs := by
       rw [loopOk_iff]
       refine ⟨?_, by simp, ?_, ?_, ?_⟩
@@ -798,7 +901,7 @@ theorem validateOn_ok_iff (kind : Kind) (ecl0 : Option Nat) (hs : Headers) (r : 
       (nextState_authority_set _) (nextState_authority_keep _) hs { ecl := ecl0 } false [] hloop (by simp)
     have fP := outState_field (allowedPseudo kind) (hasStream kind) VState.path bPath (by decide)
       (nextState_path_set _) (nextState_path_keep _) hs { ecl := ecl0 } false [] hloop (by simp)
-    refine ⟨hloop, ?_, ?_, hr⟩
+    refine ⟨hloop, esame, ?_, ?_, hr⟩
     · intro n hn
       rw [outState_seen]
       right
@@ -948,13 +1051,14 @@ theorem firstHeaders_append (a b : List Event) :
     delivered so far -/
 def CLOk (evs : List Event) : Prop :=
   ∀ p, p <+: evs → ∀ ev, p.getLast? = some ev → ev.ended = true →
-    ∀ hs0 n, firstHeaders p = some hs0 → declaredCL hs0 = some n → bodyBytes p = n
+    ∀ hs0 n, firstHeaders p = some hs0 → n ∈ allDeclaredCL hs0 → bodyBytes p = n
 
 /-- the stream fields agree with the events reported so far -/
 def Inv (s : St) (evs : List Event) : Prop :=
   s.cl = bodyBytes evs ∧
   (s.hstate = .initial → firstHeaders evs = none ∧ s.ecl = none) ∧
-  (s.hstate ≠ .initial → ∃ hs0, firstHeaders evs = some hs0 ∧ s.ecl = declaredCL hs0)
+  (s.hstate ≠ .initial → ∃ hs0, firstHeaders evs = some hs0 ∧ s.ecl = declaredCL hs0 ∧
+    AllSame (allDeclaredCL hs0))
 
 theorem clOk_nil : CLOk [] := by
   intro p hp ev hev
@@ -963,21 +1067,49 @@ theorem clOk_nil : CLOk [] := by
 
 theorem clOk_emit (evs : List Event) (ev : Event) (h : CLOk evs)
     (hev : ev.ended = true → ∀ hs0 n, firstHeaders (evs ++ [ev]) = some hs0 →
-      declaredCL hs0 = some n → bodyBytes (evs ++ [ev]) = n) : CLOk (evs ++ [ev]) := by
+      n ∈ allDeclaredCL hs0 → bodyBytes (evs ++ [ev]) = n) : CLOk (evs ++ [ev]) := by
   intro p hp x hx hxe
   rcases List.prefix_concat_iff.1 hp with rfl | hp'
   · simp at hx; subst hx; exact hev hxe
   · exact h p hp' x hx hxe
 
+theorem declaredCL_eq_getLast (hs : Headers) : declaredCL hs = (allDeclaredCL hs).getLast? := by
+  induction hs with
+  | nil => rfl
+  | cons h t ih =>
+    simp only [declaredCL, allDeclaredCL, ih]
+    by_cases hc : h.1 = bContentLength
+    · simp only [hc, if_true]
+      cases hp : parseContentLength h.2 with
+      | error e => cases (allDeclaredCL t).getLast? <;> rfl
+      | ok n =>
+        cases hl : allDeclaredCL t with
+        | nil => simp
+        | cons a A =>
+          simp only [List.getLast?_cons_cons]
+          cases hg : (a :: A).getLast? with
+          | none => simp at hg
+          | some m => rfl
+    · simp only [hc, if_false]
+      cases (allDeclaredCL t).getLast? <;> rfl
+
+theorem declaredCL_of_mem {hs : Headers} {n : Nat} (hsame : AllSame (allDeclaredCL hs))
+    (hn : n ∈ allDeclaredCL hs) : declaredCL hs = some n := by
+  rw [declaredCL_eq_getLast]
+  cases hl : (allDeclaredCL hs).getLast? with
+  | none => rw [List.getLast?_eq_none_iff.1 hl] at hn; cases hn
+  | some m => rw [hsame n hn m (List.mem_of_getLast? hl)]
+
 /-- a passed `_check_content_length` is what an ended event needs -/
 theorem ended_ok (s : St) (evs : List Event) (hi : Inv s evs) (hc : checkContentLength s = .ok ()) :
-    ∀ hs0 n, firstHeaders evs = some hs0 → declaredCL hs0 = some n → bodyBytes evs = n := by
-  intro hs0 n hf hd
+    ∀ hs0 n, firstHeaders evs = some hs0 → n ∈ allDeclaredCL hs0 → bodyBytes evs = n := by
+  intro hs0 n hf hmem
   obtain ⟨hcl, h0, h1⟩ := hi
   by_cases hst : s.hstate = .initial
   · rw [(h0 hst).1] at hf; cases hf
-  · obtain ⟨hs0', hf', he⟩ := h1 hst
+  · obtain ⟨hs0', hf', he, hsame⟩ := h1 hst
     rw [hf'] at hf; cases hf
+    have hd := declaredCL_of_mem hsame hmem
     rw [hd] at he
     simp only [checkContentLength, he] at hc
     rw [← hcl]
@@ -1036,7 +1168,8 @@ theorem handleFrame_good {s s' : St} {f : Frame} {e : Bool} {evs new : List Even
         · simp [bodyBytes_append, bodyBytes, hcl]
         · intro hh; cases hh
         · intro _
-          exact ⟨hs, by simp [firstHeaders_append, (h0 hst).1, firstHeaders], hr'⟩
+          exact ⟨hs, by simp [firstHeaders_append, (h0 hst).1, firstHeaders], hr',
+            ((validateOn_ok_iff _ _ _ _).1 hv).2.1.2.2.1⟩
       refine ⟨hinv, clOk_emit _ _ hc ?_⟩
       intro hend
       exact ended_ok _ _ hinv (hchk hend)
@@ -1589,6 +1722,48 @@ theorem fin_on_body_reports_end (s : St) (op : Op) (hd : s.done = false)
           exact ⟨.data n true, by simp, rfl⟩
 
 
+/-! ### what `allDeclaredCL` lists -/
+
+theorem parseContentLength_ok_iff (v : Bytes) (n : Nat) :
+    parseContentLength v = .ok n ↔ pyIntOfBytes v = some (n : Int) := by
+  unfold parseContentLength
+  cases h : pyIntOfBytes v with
+  | none => simp
+  | some i =>
+    by_cases hn : i < 0
+    · simp only [hn, if_true, Option.some.injEq]
+      constructor
+      · intro hh; cases hh
+      · intro hh; omega
+    · simp only [hn, if_false, Except.ok.injEq, Option.some.injEq]
+      omega
+
+theorem mem_allDeclaredCL (hs : Headers) (n : Nat) :
+    n ∈ allDeclaredCL hs ↔
+      ∃ h ∈ hs, h.1 = bContentLength ∧ pyIntOfBytes h.2 = some (n : Int) := by
+  induction hs with
+  | nil => simp [allDeclaredCL]
+  | cons h t ih =>
+    simp only [allDeclaredCL, List.mem_cons, exists_eq_or_imp]
+    by_cases hc : h.1 = bContentLength
+    · simp only [hc, if_true, true_and]
+      cases hp : parseContentLength h.2 with
+      | error e =>
+        have : ¬ pyIntOfBytes h.2 = some (n : Int) := by
+          rw [← parseContentLength_ok_iff, hp]; simp
+        simp [ih, this]
+      | ok m =>
+        have hm := (parseContentLength_ok_iff h.2 m).1 hp
+        simp only [List.mem_cons, ih, hm, Option.some.injEq]
+        constructor
+        · rintro (rfl | h2)
+          · exact Or.inl rfl
+          · exact Or.inr h2
+        · rintro (h1 | h2)
+          · exact Or.inl (by omega)
+          · exact Or.inr h2
+    · simp [hc, ih]
+
 /-! ### closed terms for the examples of AQ.Props.C15 -/
 
 /-- equality of outcomes is decidable (used only to evaluate closed examples) -/
@@ -1606,5 +1781,11 @@ def hCL (v : Bytes) : Header := (bContentLength, v)
 def hMethodGet : Header := (bMethod, [0x47, 0x45, 0x54])
 /-- `:authority: x` -/
 def hAuthorityX : Header := (bAuthority, [0x78])
+/-- pseudo-headers that satisfy each kind's requirements -/
+def GOODPREFIX : Kind → Headers
+  | .request => [hMethodGet, hAuthorityX]
+  | .response => [hStatus200]
+  | .trailers => []
+  | .push => [hMethodGet, (bScheme, bHttps), hAuthorityX, (bPath, [0x2F])]
 
 end AQ.H3V
